@@ -46,8 +46,8 @@ def _surface(seed, tier):
 
 prop("C01", ["TaRs.Props.C01"],
      explanation="L2 theorems (X K, any linearly ordered field): the generated next of SMA/WMA/SD/MAD/Min/Max/BB computes the statistic of exactly the last min(t,n) inputs for every period, stream and prefix; f64 rounding within tau(t) is sampled against double-double references.")
-prop("C02", ["TaRs.Props.C02"],
-     explanation="L0 whole-stream theorems (any Scalar, hence f64 incl. NaN): EMA seeding/recursion, TrueRange branches, ATR/MACD/KC/CE wiring are the documented formulas in the documented operation order; tau(t) agreement with from-scratch evaluation is sampled.")
+prop("C02", ["TaRs.Props.C02", "TaRs.Round.EMA", "TaRs.Round.TauEMA"],
+     explanation="L0 whole-stream theorems (any Scalar, hence f64 incl. NaN): EMA seeding/recursion, TrueRange branches, ATR/MACD/KC/CE wiring are the documented formulas in the documented operation order. Layer R (Round/EMA, TauEMA): under the standard model of floating-point arithmetic (|fl x - x| <= u|x|, no overflow/underflow) the generated EMA is within 6(n+1)u·M of the exact recursion for EVERY stream length, which is <= 1e-12·M <= tau(t)·M for n <= 1024 at u = 2^-53. tau(t) agreement of the composites (and of EMA in the sub/over-flow range) is sampled.")
 prop("C03", ["TaRs.Props.C03", "TaRs.Props.C03a", "TaRs.Lemmas.Exact.FastStochastic", "TaRs.Lemmas.Exact.RateOfChange", "TaRs.Lemmas.Exact.EfficiencyRatio", "TaRs.Lemmas.Exact.CommodityChannelIndex", "TaRs.Lemmas.Exact.MoneyFlowIndex"],
      explanation="L0 per-step and whole-stream formulas (RSI, PPO, OBV, SlowStochastic, CCI wiring, FastStochastic wiring) + L2 exact lookback/window theorems as they are completed (Lemmas/Exact); tau(t)·c agreement sampled with double-double references and condition-number gating.")
 prop("C04", ["TaRs.Props.C04"],
@@ -68,8 +68,8 @@ prop("C11", ["TaRs.Props.C11"],
      explanation="L0: exact characterisation of every constructor (Err iff a period is 0; never panics for allocation-free ones up to any Nat, for windowed ones while 8n <= isize::MAX), accessors stable for the whole life, Display templates, Default = new(documented defaults).")
 prop("C12", ["TaRs.Props.C12"],
      explanation="L0 theorem per indicator: from new, every sequence of next/nextBar/reset of any length returns normally for ANY scalar semantics; invariant WF by induction over the op list. clone/Debug/serialize returning normally is observed on the implementation only.")
-prop("C13", ["TaRs.Props.C13"],
-     explanation="exact half (theorem): accumulators equal the from-scratch window statistic after every stream of any length (SMA, WMA, SD, MAD, BB); float half (NOT a theorem): drift over 10^5..2·10^6-step runs measured on the implementation against double-double recomputation of the window.")
+prop("C13", ["TaRs.Props.C13", "TaRs.Round.SMA", "TaRs.Round.TauSMA"],
+     explanation="exact half (theorem): accumulators equal the from-scratch window statistic after every stream of any length (SMA, WMA, SD, MAD, BB). Float half: for SMA a THEOREM under the standard model of floating-point arithmetic (Round/SMA, TauSMA: |fl x - x| <= u|x|, no overflow/underflow): after t <= 2·10^6 inputs bounded by M the generated SMA is within 3(t+1)u·M of the exact mean of the current window, and (3(t+1)u)^2 <= 1e-24 + 1e-30 t^3 at u = 2^-53, i.e. within tau(t)·M; for the other indicators NOT a theorem: drift over 10^5..2·10^6-step runs measured on the implementation against double-double recomputation of the window.")
 prop("C14", ["TaRs.Props.C14", "TaRs.Props.C14b"],
      explanation="L2: homogeneity/shift laws of the window statistics and their stream-level corollaries through the C01 theorems; bit-exactness for 2^k and 1e-9 otherwise are sampled on pairs of runs.")
 prop("C15", ["TaRs.Props.C15", "TaRs.Props.C15Exact"],
